@@ -85,7 +85,7 @@ def work_points(task):
             acc.violation(f'c11:batch:{p[0]!r},{p[1]!r}@{r}', f'asked again in a batch, the centre of {c:#x} (cell of {p!r} at resolution {r}) is {d:.3f} cell widths from the point (limit 1.0)',
                           {'kind': 'point', 'point': [p[0], p[1]], 'r': r})
             continue
-        acc.n['nontrivial'] += 1
+        acc.n['batch_second_pass_ok'] += 1
     return acc
 
 
